@@ -122,7 +122,8 @@ LawGenAgree(T, cons)     == \A a \in DOMAIN cons \cap DOMAIN T.choices : T.choic
 LawGenWeight(p, T, cons, w) == Close(w, GenWt(ExecT(p, T), DOMAIN cons))
 
 \* C05: update.  tags[j] \in {"N","U"} honest taint of argument j.
-Rs(p, post, tags, cons) == Chg(p, post.args, [j \in 1..Len(tags) |-> tags[j] = "U"], post.choices, DOMAIN cons).rs
+RsD(p, post, tags, D) == Chg(p, post.args, [j \in 1..Len(tags) |-> tags[j] = "U"], post.choices, D).rs
+Rs(p, post, tags, cons) == RsD(p, post, tags, DOMAIN cons)
 Fresh(p, pre, post, tags, cons) ==
   {a \in DOMAIN post.choices : a \notin DOMAIN cons /\ (a \notin DOMAIN pre.choices \/ UnderAny(a, Rs(p, post, tags, cons)))}
 LawUpdArgs(post, args2) == post.args = args2
